@@ -977,6 +977,17 @@ def _normalise_cases():
     cases.append(('a term-function inlined under a binder', D(L('y'), Gl('C1'), B('EQUAL', ('CARD', None, [call(L('y'))]), I(2))), {'F1': fdef}))
     cases.append(('a term-function inlined where the caller uses the name the inliner invents', D(L('__var1'), Gl('C1'), B('EQUAL', ('CARD', None, [call(L('__var1'))]), I(2))), {'F1': fdef}))
     cases.append(('a term-function inlined twice', D(L('y'), Gl('C1'), B('EQUAL', call(L('y')), call(L('y')))), {'F1': fdef}))
+    # a body whose root itself needs normalising (a tuple binder): the substituted body is normalised as a whole, not only below its root
+    fdef2 = ('PUNC_DEFINE', None, [('ID_FUNCTION', 'F2', []), ('NT_FUNC_DEFINITION', None, [('NT_ARGUMENTS', None, [('NT_ARG_DECL', None, [L('s'), Gl('S1')])]),
+             D(TD(L('x'), L('y')), L('s'), B('LESSER', L('x'), L('y')))])])
+    call2 = lambda arg: ('NT_FUNC_CALL', None, [('ID_FUNCTION', 'F2', []), arg])
+    cases.append(('a term-function whose body is rooted at a tuple binder', B('EQUAL', ('CARD', None, [call2(Gl('S1'))]), I(2)), {'F2': fdef2}))
+    fdef3 = ('PUNC_DEFINE', None, [('ID_FUNCTION', 'F3', []), ('NT_FUNC_DEFINITION', None, [('NT_ARGUMENTS', None, [('NT_ARG_DECL', None, [L('s'), Gl('S1')])]), call2(L('s'))])])
+    cases.append(('a term-function whose body is a call of another one', B('EQUAL', ('CARD', None, [('NT_FUNC_CALL', None, [('ID_FUNCTION', 'F3', []), Gl('S1')])]), I(2)), {'F2': fdef2, 'F3': fdef3}))
+    # names of a closed tuple pattern are ordinary names again: a later, unrelated pattern must not rewrite them
+    cases.append(('a plain variable named like a component of an earlier, closed pattern',
+                  AND(Q('EXISTS', TD(L('a'), L('b')), Gl('S1'), B('LESSER', L('a'), L('b'))),
+                      Q('EXISTS', L('a'), Gl('C1'), Q('FORALL', TD(L('c'), L('d')), Gl('S1'), B('NOTEQUAL', L('c'), L('a'))))), {}))
     cases.append(('a term-function whose argument uses its parameter name', D(L('a'), Gl('C1'), B('EQUAL', ('CARD', None, [call(L('a'))]), I(2))), {'F1': fdef}))
     return cases
 
@@ -1028,10 +1039,27 @@ def normalise_meaning_rule(db, r10):
                 r10.violation(inst, where, '%s is normalised to %s, where the name %s is bound again while an enclosing binder of that name is live: the evaluator keeps one slot per name, so the inner binder overwrites the outer value' % (_show_tree(tree), _show_tree(t1), sorted(extra)))
             elif problems:
                 r10.violation(inst, where, 'normalising %s leaves a broken parent link: %s' % (_show_tree(tree), problems[0]))
+            elif _not_normal(t1, funcs):
+                r10.violation(inst, where, '%s is normalised to %s, which still contains %s: the evaluator has no rule for it (it evaluates normal forms only), so an expression the checker accepted '
+                              'yields no value or a value of another structure' % (_show_tree(tree), _show_tree(t1), _not_normal(t1, funcs)))
             else:
                 r10.ok(inst, '%s = %s before and after' % (_show_tree(tree)[:90], _show_val(v0)), where)
         except _Unbound as e:
             r10.violation(inst, where, '%s is normalised to %s, in which %s' % (_show_tree(tree), _show_tree(t1), e))
+
+
+def _not_normal(t, funcs):
+    """what is left in a tree that normalisation should have eliminated: a tuple or enumerated declaration, a call of a term-function whose body is known"""
+    k, data, ch = t
+    if k in ('NT_TUPLE_DECL', 'NT_ENUM_DECL'):
+        return 'the declaration %s' % _show_tree(t)
+    if k == 'NT_FUNC_CALL' and ch and ch[0][0] == 'ID_FUNCTION' and ch[0][1] in (funcs or {}):
+        return 'the call %s of a term-function whose body should have been substituted' % _show_tree(t)
+    for c in ch:
+        r = _not_normal(c, funcs)
+        if r:
+            return r
+    return None
 
 
 def _show_val(v):
